@@ -135,7 +135,7 @@ Theorem C03_F2_pinned_refuted :
 Proof. exact F2_pinned_refuted. Qed.
 Print Assumptions C03_F2_pinned_refuted.
 
-Theorem C03_F3_refuted :
+Theorem C03_F3_pinned_refuted :
   exists ds q k s segs caps sc,
     served true true true true ds q = Some (ORule 0 caps false, [k]) /\
     nth_error (flat_routes 0 ds) (k_vid k) = Some s /\ sr_rule s = 0 /\
@@ -143,8 +143,8 @@ Theorem C03_F3_refuted :
     sr_segs s q = Some segs /\
     spec_captures (rl_slash (sr_def s)) (declared_names (sr_tokens s)) segs = Some sc /\
     caps <> sc.
-Proof. exact F3_refuted. Qed.
-Print Assumptions C03_F3_refuted.
+Proof. exact F3_pinned_refuted. Qed.
+Print Assumptions C03_F3_pinned_refuted.
 
 Theorem C03_F5_pinned_refuted :
   exists ds q k s segs caps sc es t,
